@@ -552,3 +552,21 @@ package decimal
 //@ func clampExp(exp int64) int64
 //@   pure
 //@   ensures[value,C14,C20] result == (exp > 1099511627776 ? 1099511627776 : exp < 0 - 1099511627776 ? 0 - 1099511627776 : exp)
+
+//@ func (z *Decimal) SetBitsExp(mant []Word, exp int64) *Decimal
+//@   requires[wf] z != nil && z.mode <= 5 && wordsok(mant) && len(mant) <= 10000000 && z.prec <= 1000000000
+//@   requires[own] z.mant.arr != mant.arr || cap(z.mant) == 0 || cap(mant) == 0 || (z.mant.arr == mant.arr && z.mant.off == mant.off)
+//@   modifies z.prec, z.acc, z.form, z.neg, z.exp, z.mant, mem(mant)
+//@   ensures[result] result == z
+//@   ensures[sign,C20] z.neg == false
+//@   ensures[prec,C09,C20] old(z.prec) != 0 ==> z.prec == old(z.prec)
+//@   ensures[zero,C20] old(V(mant)) == 0 ==> z.form == zero && z.acc == 0
+//@   ensures[nonzero,C20] old(V(mant)) != 0 ==> z.form != zero || z.acc != 0
+//@   ensures[range,C20,C02] old(V(mant)) != 0 ==> (exp > MaxExp + 18 + 19*len(mant) ==> z.form == inf && z.acc == 1) && (exp < MinExp - 200000000 ==> z.form == zero && z.acc == 0 - 1)
+//@   ensures[exact,C20,C01] old(V(mant)) != 0 && 19*len(mant) <= z.prec && z.form == finite ==> z.acc == 0 &&
+//@        (let d = (exp - 19*len(mant)) - (z.exp - 19*len(z.mant)) in 0 <= d && d <= 18 && V(z.mant) == old(V(mant))*p10(d))
+//@   ensures[valid,C08] valid(z)
+//@   hint[after:norm#1] len(result) >= 1 ==> V_ge_P(result, 0, len(result))
+//@   hint[after:norm#1] len(result) >= 1 ==> P_mono(0, len(result)-1)
+//@   tags safety C04,C20
+//@   tags support C20,C08
